@@ -922,6 +922,10 @@ class GroupBy:
                     y_counts=counts_one_value[j][:-1],
                 )
                 count[pointer] += counts_one_value[j][:-1]  # ignore null group
+            if func_name in ("size", "count"):
+                # the counts are the result (the target of a count is a dummy);
+                # keep the trailing slot for null keys
+                combined = np.append(count, 0)
             individual_results.append((combined, count))
 
         return individual_results
